@@ -27,6 +27,8 @@ NAMES = {
     'toCanonical_avx512': 'ToCanon512', 'add_avx512': 'Add512', 'add_avx512_b_c': 'AddBC512', 'sub_avx512': 'Sub512', 'sub_avx512_b_c': 'SubBC512',
     'mult_avx512_128': 'Mult128_512', 'mult_avx512_72': 'Mult72_512', 'reduce_avx512_128_64': 'Reduce128_512', 'reduce_avx512_96_64': 'Reduce96_512',
     'mult_avx512': 'Mult512', 'mult_avx512_8': 'Mult8_512', 'square_avx512_128': 'Square128_512', 'square_avx512': 'Square512'}
+CHAIN_NAMES = {'spmv_avx_4x12': 'Spmv2', 'spmv_avx_4x12_a': 'Spmv2A', 'spmv_avx_4x12_8': 'Spmv8', 'spmv_avx512_4x12': 'Spmv512', 'spmv_avx512_4x12_8': 'Spmv8_512',
+               'mmult_avx_4x12': 'ColSum', 'mmult_avx_4x12_a': 'ColSumA', 'mmult_avx_4x12_8': 'ColSum8', 'mmult_avx512_4x12': 'ColSum512', 'mmult_avx512_4x12_8': 'ColSum8_512'}
 CONSTS = {'MSB': ('word', 'MSB'), 'P': ('word', 'P'), 'P_n': ('word', 'Pn'), 'P8': ('word', 'P'), 'P8_n': ('word', 'Pn'),
           'P_s': ('word', 'Shift(P)'), 'sqmask': ('lowmask', '(2 * Phi)'), 'sqmask8': ('lowmask', '(2 * Phi)')}
 
@@ -59,6 +61,25 @@ def functions(text):
     return out
 
 
+def chain_functions(text):
+    out = {}
+    for m in re.finditer(r'inline\s+void\s+Goldilocks::(\w+)\s*\(([^)]*)\)\s*\{', text):
+        name, params = m.group(1), m.group(2)
+        if name not in CHAIN_NAMES or name in out:
+            continue
+        ps = [p.strip() for p in params.split(',')]
+        i = m.end(); depth = 1
+        while depth:
+            c = text[i]
+            depth += (c == '{') - (c == '}')
+            i += 1
+        body = text[m.end():i - 1]
+        outs = [re.search(r'(\w+)$', p).group(1) for p in ps if re.fullmatch(r'__m(256|512)i\s*&\s*\w+', p)]
+        ins = [re.search(r'(\w+)$', p).group(1) for p in ps if re.fullmatch(r'const\s+__m(256|512)i\s*&\s*\w+', p)]
+        out[name] = (outs, ins, body)
+    return out
+
+
 def split_args(s):
     args = []; d = 0; cur = ''
     for ch in s:
@@ -81,6 +102,8 @@ class Gen:
         self.env = {v: ('word', v) for v in ins}     # var -> (kind, tla expr)
         self.lets = []; self.n = 0; self.prods = []
         self.body = body
+        self.chain = False          # chain kernels: values coming from memory / permutations become parameters
+        self.opaque = []
 
     def fresh(self, base):
         self.n += 1
@@ -213,6 +236,8 @@ class Gen:
             if m:
                 continue                                            # plain declarations
             m = re.fullmatch(r'(?:const )?(?:__m256i|__m512i|__mmask8|__mmask16) (\w+) = (.*)', st)
+            if m and self.chain and (re.match(r'_mm(256|512)_(permute|unpack|set4|set_epi64|castpd)', m.group(2))):
+                m = None
             if m:
                 k, x = self.expr(m.group(2)) if '(' in m.group(2) else self.val(m.group(2))
                 if k == 'imm':
@@ -244,6 +269,23 @@ class Gen:
                     r = self.fresh('r'); self.lets.append('%s == %s' % (r, call))
                     self.bind(args[0], 'word', r + '.h'); self.bind(args[1], 'word', r + '.l')
                 continue
+            if self.chain:
+                # loads of coefficient rows, calls of other 12-wide kernels, permutations: the assigned register is an
+                # opaque lane value (a parameter of the generated chain operator)
+                m = re.fullmatch(r'(?:Goldilocks::)?(?:load_avx|load_avx_a|load_avx512|load_avx512_a)\s*\((\w+), &\((\w+)\[(\d+)\]\)\)', st)
+                if m:
+                    pname = '%s%d' % (re.sub(r'_\w+$', '', m.group(2)), int(m.group(3)) // 4)
+                    self.env[m.group(1)] = ('word', pname); self.opaque.append(pname); continue
+                m = re.fullmatch(r'(?:const )?__m512i (\w+) = _mm512_set4_epi64\((\w+)\[(\d+)\]\.fe, .*\)', st)
+                if m:
+                    pname = '%s%d' % (re.sub(r'_\w+$', '', m.group(2)), (int(m.group(3)) - 3) // 4)
+                    self.env[m.group(1)] = ('word', pname); self.opaque.append(pname); continue
+                m = re.fullmatch(r'(?:const )?(?:__m256i|__m512i) (\w+) = (.*)', st) or re.fullmatch(r'(\w+) = (.*)', st)
+                if m:
+                    self.env[m.group(1)] = ('word', m.group(1)); self.opaque.append(m.group(1)); continue
+                m = re.fullmatch(r'(?:Goldilocks::)?(\w+)\s*\((\w+), .*\)', st)
+                if m:
+                    self.env[m.group(2)] = ('word', m.group(2)); self.opaque.append(m.group(2)); continue
             raise ParseError('%s: cannot parse statement %r' % (self.fname, st))
         for o in self.outs:
             if o not in self.env or self.env[o][0] != 'word':
@@ -316,6 +358,33 @@ def generate(src):
     return ''.join(parts), nprod
 
 
+def generate_chains(src):
+    """MatChains.tla: the per-lane arithmetic chains of the 12-wide kernels (spmv: products and adders; mmult: the sums of
+    the four transposed columns), generated from the current tree; coefficient rows and transposed columns are parameters."""
+    t = strip_comments(open(src + '/goldilocks_base_field_avx.hpp').read()) + '\n' + strip_comments(open(src + '/goldilocks_base_field_avx512.hpp').read())
+    sigs = functions(t)
+    ch = chain_functions(t)
+    missing = [k for k in CHAIN_NAMES if k not in ch]
+    if missing:
+        raise ParseError('chain kernels not found: %s' % missing)
+    parts = ['---- MODULE MatChains ----\n(* GENERATED by tools/avx2tla.py from the 12-wide kernels of goldilocks_base_field_avx.hpp / _avx512.hpp: the per-lane\n   arithmetic chains; values loaded from coefficient rows (b0, b1, b2) and transposed column registers (c0..c3) are parameters. *)\nEXTENDS LaneKernels\n']
+    sig = {}
+    for k, name in CHAIN_NAMES.items():
+        outs, ins, body = ch[k]
+        g = Gen(k, outs, ins, body, sigs)
+        g.chain = True
+        g.run()
+        res = g.env[outs[0]][1]
+        text = '\n      '.join(g.lets)
+        used = [p for p in dict.fromkeys(ins + g.opaque) if re.search(r'\b%s\b' % re.escape(p), text + ' ' + res)]
+        if g.prods:
+            raise ParseError('%s: direct products in a chain kernel' % k)
+        parts.append('%s(%s) ==\n  LET %s\n  IN %s\n' % (name, ', '.join(used), text, res))
+        sig[name] = used
+    parts.append('====\n')
+    return ''.join(parts), sig
+
+
 if __name__ == '__main__':
     src = sys.argv[1] if len(sys.argv) > 1 else '/repo/src'
     out = sys.argv[2] if len(sys.argv) > 2 else 'LaneKernels.tla'
@@ -326,3 +395,11 @@ if __name__ == '__main__':
         sys.exit(3)
     open(out, 'w').write(text)
     print(nprod)
+    if len(sys.argv) > 3:
+        try:
+            ctext, sig = generate_chains(src)
+        except ParseError as e:
+            print('avx2tla(chains): ' + str(e), file=sys.stderr)
+            sys.exit(3)
+        open(sys.argv[3], 'w').write(ctext)
+        print(sig)
